@@ -39,6 +39,7 @@ let dispatch check diff (k : string) (toks : string list) (raw : string) =
   if Proxydrv.handle check diff toks raw then () else
   if Ffdrv.handle check diff toks raw then () else
   if Hostiledrv.handle check diff toks raw then () else
+  if Resetdrv.handle check diff toks raw then () else
   if Crashdrv.handle check diff toks raw then () else
   if Hgdrv.handle check diff toks raw then ()
   else failwith ("unknown case kind " ^ k)
